@@ -67,3 +67,45 @@ Proof. vm_compute. auto. Qed.
    table and the filter as written (bank MsgSend only) *)
 Lemma all_paths_filtered_refuted : unfiltered shape_at_writing reviewed_sites <> [].
 Proof. vm_compute. discriminate. Qed.
+
+(* ---------------------------------------------------------------- who writes the state the rules read *)
+(* every call site of the setters of the token registry, the freeze lists, the execution-fee table,
+   the allowed-message list and the feeprocessing records, as reviewed: the proposal handlers
+   (tokens Apply x6, gov Apply x2) are driven by the harnesses (configuration "written through
+   proposal handlers"), the ante / post / end-block sites are the modelled decorators, genesis and
+   the message handlers of tokens / gov / layer2 are not driven *)
+Definition reviewed_writers : list (string * string * string) := [
+  ("app/ante", "AnteHandle", "AddExecutionStart");
+  ("app/posthandler", "PostHandle", "SetExecutionStatusSuccess");
+  ("feeprocessing", "EndBlocker", "ProcessExecutionFeeReturn");
+  ("feeprocessing", "SendCoinsFromModuleToAccount", "SetSenderCoinsHistory");
+  ("feeprocessing", "SendCoinsFromAccountToModule", "SetSenderCoinsHistory");
+  ("gov", "InitGenesis", "SetExecutionFee");
+  ("gov", "InitGenesis", "SavePoorNetworkMessages");
+  ("gov", "NewHandler", "SetExecutionFee");
+  ("gov", "SetExecutionFee", "SetExecutionFee");
+  ("gov", "Apply", "SavePoorNetworkMessages");
+  ("gov", "Apply", "SetExecutionFee");
+  ("layer2", "MintCreateFtTx", "UpsertTokenInfo");
+  ("layer2", "MintCreateNftTx", "UpsertTokenInfo");
+  ("tokens", "NewHandler", "UpsertTokenInfo");
+  ("tokens", "BurnCoins", "UpsertTokenInfo");
+  ("tokens", "AddTokensToBlacklist", "SetTokenBlackWhites");
+  ("tokens", "RemoveTokensFromBlacklist", "SetTokenBlackWhites");
+  ("tokens", "AddTokensToWhitelist", "SetTokenBlackWhites");
+  ("tokens", "RemoveTokensFromWhitelist", "SetTokenBlackWhites");
+  ("tokens", "MintCoins", "UpsertTokenInfo");
+  ("tokens", "UpsertTokenInfo", "UpsertTokenInfo");
+  ("tokens", "UpsertTokenInfo", "UpsertTokenInfo");
+  ("tokens", "InitGenesis", "UpsertTokenInfo");
+  ("tokens", "InitGenesis", "SetTokenBlackWhites");
+  ("tokens", "Apply", "UpsertTokenInfo");
+  ("tokens", "Apply", "UpsertTokenInfo");
+  ("tokens", "Apply", "AddTokensToBlacklist");
+  ("tokens", "Apply", "RemoveTokensFromBlacklist");
+  ("tokens", "Apply", "AddTokensToWhitelist");
+  ("tokens", "Apply", "RemoveTokensFromWhitelist")
+]%string.
+
+Lemma state_writers_reviewed : state_writers = reviewed_writers.
+Proof. vm_compute. reflexivity. Qed.
